@@ -232,10 +232,15 @@ func (l *Lexer) skipWhitespace() {
 
 func (l *Lexer) readChar() {
 	if l.readPosition >= len(l.input) {
+		// at end of input the cursor stays put: position never passes
+		// len(input), so input[start:position] is always in range
 		l.ch = 0
-	} else {
-		l.ch = l.input[l.readPosition]
+		l.position = len(l.input)
+		l.readPosition = len(l.input) + 1
+		return
 	}
+
+	l.ch = l.input[l.readPosition]
 
 	if l.ch == '\n' {
 		l.curLine++
